@@ -391,8 +391,8 @@ class C06(Spec):
         primes = gc_primes()
         quick = tier == 'quick'
         cs = []
-        nh = (60 if quick else 6000) * boost
-        per = 6 if quick else 50
+        nh = (300 if quick else 10000) * boost
+        per = 15 if quick else 50
         hs = []
         for i in range(nh):
             nops = rng.choice([20, 40, 80, 120] if quick else [40, 120, 300, 600])
@@ -406,7 +406,7 @@ class C06(Spec):
             cs.append(Case(f'rand{i//per}', [l for h, _ in chunk for l in h], meta={'hist': [(hash('\n'.join(h)), c) for h, c in chunk]}))
         # chains under address permutations
         ch = []
-        nperm = (4 if quick else 120) * boost
+        nperm = (10 if quick else 120) * boost
         for depth in range(2, 7):
             for via in 'cgde':
                 for how_top in 'srw':
